@@ -135,6 +135,35 @@ Theorem C10_cadence_from_creation_with_migrations : forall self ct admin time0 b
   Forall (fun t => time0 + 86400000000000 <= t) (d_accepted_changes self (fresh ct admin s) txs).
 Proof. exact d_cadence_from_creation. Qed.
 
+(* ---- an entry with share 0 is an entry.  instantiate stores the royalty_info it is given
+   (it never turns Some{share 0} into None), so the first update of a collection created
+   with a 0 % entry is a raise from 0 %: anything above 2 % is refused, at any time, from
+   any sender; a migration keeps the entry. *)
+Theorem C10_raise_refused : forall ct self e m new old s,
+  ci_royalty (info s) = Some old -> u_royalty m = Some new ->
+  r_share old + 20000000000000000 < r_share new \/
+  (r_share old < r_share new /\ 100000000000000000 < r_share new) ->
+  step ct self e (OUpdateInfo m) s = Err.
+Proof. exact raise_refused. Qed.
+
+Theorem C10_zero_share_entry_is_an_entry : forall ct self time0 by_contract funds0 minter c s payee e m new,
+  instantiate ct time0 by_contract funds0 minter c = Ok s ->
+  ci_royalty c = Some (mkRoy payee 0) ->
+  u_royalty m = Some new -> 20000000000000000 < r_share new ->
+  ci_royalty (info s) = Some (mkRoy payee 0) /\ step ct self e (OUpdateInfo m) s = Err.
+Proof. exact zero_share_entry_is_an_entry. Qed.
+
+Theorem C10_raise_refused_with_migrations : forall self e m new old d,
+  ci_royalty (info (d_st d)) = Some old -> u_royalty m = Some new ->
+  r_share old + 20000000000000000 < r_share new \/
+  (r_share old < r_share new /\ 100000000000000000 < r_share new) ->
+  dstep self e (ACall (OUpdateInfo m)) d = Err.
+Proof. exact d_raise_refused. Qed.
+
+Theorem C10_migration_keeps_royalty_entry : forall self e d d' ms,
+  dstep self e AMigrate d = Ok (d', ms) -> ci_royalty (info (d_st d')) = ci_royalty (info (d_st d)).
+Proof. exact migrate_keeps_royalty. Qed.
+
 (* ---- the payout helper *)
 Theorem C10_payout_none : forall payment fee finders,
   royalty_payout None payment fee finders = Ok (0, []).
@@ -223,6 +252,20 @@ Example C10_ex_cadence_survives_migration :
                               [(mkEnv (c10_ex_t0 + day + hour) 12 [], AMigrate)])) = c10_ex_t0 + hour.
 Proof. vm_compute. repeat split; reflexivity. Qed.
 
+(* created with a 0 % entry: 24 h later 0 % -> 2 % is accepted, 2 % + 1 unit / 5 % / 100 % refused;
+   created without royalties the first entry may be anything up to 100 % *)
+Example C10_ex_zero_entry :
+  let info0 payee_share := mkInfo 12 (mkTxt 1 12 false) (mkTxt 2 29 true) None None None payee_share in
+  let boot r := match instantiate NT c10_ex_t0 true [] 10 (info0 r) with Ok s => s | Err => c10_ex_s0 end in
+  let e := mkEnv (c10_ex_t0 + 86400000000000) 12 [] in
+  ci_royalty (info (boot (Some (mkRoy 18 0)))) = Some (mkRoy 18 0) /\
+  is_ok (step NT 11 e (c10_ex_upd 20000000000000000) (boot (Some (mkRoy 18 0)))) = true /\
+  step NT 11 e (c10_ex_upd 20000000000000001) (boot (Some (mkRoy 18 0))) = Err /\
+  step NT 11 e (c10_ex_upd 50000000000000000) (boot (Some (mkRoy 18 0))) = Err /\
+  step NT 11 e (c10_ex_upd 1000000000000000000) (boot (Some (mkRoy 18 0))) = Err /\
+  is_ok (step NT 11 e (c10_ex_upd 1000000000000000000) (boot None)) = true.
+Proof. vm_compute. repeat split; reflexivity. Qed.
+
 Print Assumptions C10_share_le_100_at_creation.
 Print Assumptions C10_share_le_100_after_any_call.
 Print Assumptions C10_share_le_100_always.
@@ -248,3 +291,8 @@ Print Assumptions C10_climb_bounded_with_migrations.
 Print Assumptions C10_cadence_with_migrations.
 Print Assumptions C10_cadence_any_two_with_migrations.
 Print Assumptions C10_cadence_from_creation_with_migrations.
+
+Print Assumptions C10_raise_refused.
+Print Assumptions C10_zero_share_entry_is_an_entry.
+Print Assumptions C10_raise_refused_with_migrations.
+Print Assumptions C10_migration_keeps_royalty_entry.
